@@ -60,6 +60,7 @@ def main() -> int:
     ap.add_argument('--tier', default=os.environ.get('VERIF_TIER') or 'quick', choices=['quick', 'thorough'])
     ap.add_argument('--replay')
     ap.add_argument('--only', help='run only this subcheck')
+    ap.add_argument('--no-replays', action='store_true', help='skip the curated regression replays (sensitivity runs)')
     ap.add_argument('--procs', type=int, default=int(os.environ.get('VERIF_PROCS', '16')))
     ap.add_argument('--scale', type=float, default=float(os.environ.get('VERIF_SCALE', '1')),
                     help='multiply case counts (development aid)')
@@ -111,7 +112,7 @@ def main() -> int:
 
     # ---- curated regression replays (seconds-long tier): replays/<ID>/*.json
     n_replays = 0
-    for path in sorted(glob.glob(os.path.join(VERIF_DIR, 'replays', prop, '*.json'))):
+    for path in ([] if ns.no_replays else sorted(glob.glob(os.path.join(VERIF_DIR, 'replays', prop, '*.json')))):
         with open(path, encoding='utf8') as f:
             rep = json.load(f)
         try:
@@ -157,9 +158,10 @@ def main() -> int:
     per_sub: dict[str, dict] = {}
     for r in results:
         d = per_sub.setdefault(r['sub'], {
-            'evaluations': 0, 'hashes': set(), 'count': 0, 'classes': {}, 'samples': [], 'skipped_budget': 0,
+            'evaluations': 0, 'inner': 0, 'hashes': set(), 'count': 0, 'classes': {}, 'samples': [], 'skipped_budget': 0,
         })
         d['evaluations'] += r['evaluations']
+        d['inner'] += r.get('extra_evals', 0)
         d['hashes'] |= r['nontrivial_hashes']
         d['count'] += r['nontrivial_count']
         d['skipped_budget'] += r['skipped_budget']
@@ -192,7 +194,7 @@ def main() -> int:
         s = json.dumps(x, ensure_ascii=True)
         return x if len(s) <= lim else {'truncated_json': s[:lim] + '...'}
 
-    evaluations = sum(d['evaluations'] for d in per_sub.values()) + n_replays
+    evaluations = sum(d['evaluations'] + d['inner'] for d in per_sub.values()) + n_replays
     distinct_nt = sum(len(d['hashes']) + d['count'] for d in per_sub.values())
     samples = []
     for name, d in per_sub.items():
@@ -244,6 +246,7 @@ def main() -> int:
             'subchecks': {
                 name: {
                     'evaluations': d['evaluations'],
+                    'inner_executions': d['inner'],
                     'distinct_nontrivial': len(d['hashes']) + d['count'],
                     'classes': dict(sorted(d['classes'].items())),
                     'skipped_after_budget': d['skipped_budget'],
